@@ -31,6 +31,7 @@ Case families
 Driver protocol (lean/Driver/P08.lean):
   {"model":"c08","op":"den", <run input as for model "run">, "n":N, "runs":[{"trace":[..],"exit":k,"complete":b}..]}
       -> {"den":[..],"closure":[..],"exit":k,"nocalc":b,"determined":b,"mon_den":[b..],"mon_pair":[b..],"reports":[[..]..]}
+  {"model":"c08","op":"job","main":{"task":{attr:id}},"worker":{"task":{attr:id}}} -> {"shipped":[attr..],"task":{attr:id}}
   {"model":"c08","op":"data","main":{"task":{attr:id},"acts":[[o,e]..]},"worker":{"task":{..},"acts":[..],"failure":id|null},
    "outs":[..]?, "errs":[..]?} -> {"shipped":[attr..],"task":{attr:id},"acts":[[o,e]..],"base_fail":id|null,"name":id}
 """
@@ -197,6 +198,8 @@ def _snapshot():
             for k, v in rec.items():
                 if isinstance(v, list) and len(v) == 3 and isinstance(v[0], (int, float)) and isinstance(v[2], str):
                     v = [v[1], v[2]]                 # (mtime, size, md5) -> (size, md5)
+                if k == 'deps:' and isinstance(v, list):
+                    v = sorted(v, key=str)           # file_dep is a set: saved in its iteration order
                 out[k] = v
             db[tname] = out
         snap['db'] = db
@@ -269,9 +272,22 @@ def build_ns_a(case, rec):
 # family B: data pipelines
 # ======================================================================================================
 
-def b_action(spec, idx, tname, targets, **kw):
+def b_action(spec, idx, tname, targets, dependencies, changed, **kw):
     """python-action of family B (module level: a delayed-created task is pickled whole by JobTask)"""
     a = spec
+    if a.get('deps'):
+        # what the action is told about its file dependencies (file_dep is a set: compared sorted); with `cat` also
+        # their content, so that a stale list shows in the target file and in the saved values
+        kw = dict(kw, dependencies=sorted(dependencies), changed=sorted(changed))
+        if a.get('cat'):
+            text = []
+            for f in sorted(dependencies):
+                try:
+                    with open(f) as fh:
+                        text.append(fh.read())
+                except OSError:
+                    text.append('<missing %s>' % f)
+            kw['cat'] = ''.join(text)
     if a.get('out'):
         sys.stdout.write(a['out'])
     if a.get('big'):
@@ -349,7 +365,7 @@ def _b_task_dict(t):
         d['name'] = t['name'].split(':', 1)[1]
     else:
         d['basename'] = t['name']
-    for k in ('task_dep', 'setup', 'file_dep', 'targets'):
+    for k in ('task_dep', 'setup', 'file_dep', 'targets', 'calc_dep'):
         if t.get(k):
             d[k] = list(t[k])
     upt = []
@@ -377,6 +393,10 @@ def _b_task_dict(t):
 def build_ns_b(case, rec):
     from doit.loader import create_after
     tasks = case['tasks']
+    for name, text in sorted((case.get('inputs') or {}).items()):      # plain input files (cwd = the scratch dir)
+        if not os.path.exists(name):
+            with open(name, 'w') as fh:
+                fh.write(text)
     creators = {}
     order = []
     for t in tasks:
@@ -497,6 +517,21 @@ def gen_b(rng, runner='serial', nproc=0):
     for i in range(rng.randint(0, 3)):
         tasks.append(_bt('late%d' % i, 5 + i, actions=[_act(ret=rng.choice(['none', 'dict']), vals={'l': i}, out='late%d' % i)],
                          uptodate='saver', task_dep=(['total'] if rng.random() < 0.5 else [])))
+    # calc_dep: `scan*` deliver file_dep / task_dep at run time (the main process extends the consumer's attributes
+    # AFTER the worker processes were forked); consumers record the `dependencies` / `changed` their action was given
+    inputs = {}
+    if rng.random() < 0.6:
+        inputs = {'header.txt': 'HEADER\n', 'a.txt': 'AAA\n', 'b.txt': 'BBB\n', 'c.txt': 'CCC\n'}
+        for i in range(rng.randint(1, 2)):
+            files = rng.sample(['a.txt', 'b.txt', 'c.txt'], rng.randint(1, 3))
+            res = {'file_dep': files}
+            if rng.random() < 0.4:
+                res['task_dep'] = [rng.choice(['prep', 'noisy'])]
+            tasks.append(_bt('scan%d' % i, 50 + i, actions=[_act(ret='dict', vals=res, out='scan%d' % i)],
+                             uptodate=rng.choice(['none', 'none', 'saver'])))
+            tasks.append(_bt('concat%d' % i, 60 + i, calc_dep=['scan%d' % i], file_dep=['header.txt'], targets=['all%d.txt' % i],
+                             actions=[_act(ret='dict', deps=True, cat=True, write=True, echo_got=True, vals={'c': i})],
+                             task_dep=(['total'] if rng.random() < 0.3 else [])))
     cont = rng.random() < 0.6
     if cont:
         # failures of every kind (only with --continue: otherwise the run is cut short and nothing is compared)
@@ -522,7 +557,7 @@ def gen_b(rng, runner='serial', nproc=0):
         rng.shuffle(keys)
     tasks = [t for k in keys for t in units[k]]
     return {'fam': 'B', 'tasks': tasks, 'sel': None, 'cont': cont, 'always': False, 'runner': runner, 'nproc': nproc,
-            'prerun': rng.random() < 0.35}
+            'prerun': rng.random() < 0.35, 'inputs': inputs}
 
 
 # ======================================================================================================
@@ -685,8 +720,8 @@ def render(case):
         for t in case['tasks']:
             if t['kind'] == 'group':
                 continue
-            lines.append('  %-10s creator=%s delayed=%s uptodate=%s getargs=%s task_dep=%s result_dep=%s closures=%s actions=%s' % (
-                t['name'], t['creator'], t['delayed'], t['uptodate'], t['getargs'], t['task_dep'], t['result_dep'],
+            lines.append('  %-10s creator=%s delayed=%s uptodate=%s getargs=%s task_dep=%s calc_dep=%s file_dep=%s result_dep=%s closures=%s actions=%s' % (
+                t['name'], t['creator'], t['delayed'], t['uptodate'], t['getargs'], t['task_dep'], t.get('calc_dep'), t.get('file_dep'), t['result_dep'],
                 t['closures'], [(a['t'], a.get('ret', 'none'), bool(a.get('out')), bool(a.get('err')), a.get('big', 0))
                                 for a in t['actions']]))
         return '\n'.join(lines)
@@ -843,6 +878,15 @@ def _count_case(st, case, ref):
                 st.count('B:getargs:%s' % ('group' if g[1] == 'parts' else 'task'))
             if t['result_dep']:
                 st.count('B:result_dep')
+            if t.get('calc_dep'):
+                st.count('B:calc_dep_consumer')
+            for a in t['actions']:
+                if a.get('deps'):
+                    st.count('B:action_records_dependencies')
+                if isinstance(a.get('vals'), dict) and 'file_dep' in a['vals']:
+                    st.count('B:calc_result:file_dep:%d' % len(a['vals']['file_dep']))
+                    if 'task_dep' in a['vals']:
+                        st.count('B:calc_result:task_dep')
             if t['closures']:
                 st.count('B:closures')
     else:
@@ -888,7 +932,8 @@ def shrink_pair(base, var, diff, budget_s):
                 if t['kind'] == 'group':
                     continue
                 name = t['name']
-                used = any(name in x['task_dep'] or name in x['setup'] or name in x['result_dep'] or x.get('delayed') == name
+                used = any(name in x['task_dep'] or name in x['setup'] or name in x['result_dep'] or x.get('delayed') == name or name in (x.get('calc_dep') or [])
+                           or any(name in ((a.get('vals') or {}).get('task_dep') or []) for a in x['actions'])
                            or any(g[1] == name or (g[1] == t.get('group') and len([y for y in cur['tasks'] if y.get('group') == t.get('group') and y['kind'] == 'sub']) == 1)
                                   for g in x['getargs'])
                            for x in cur['tasks'] if x is not t)
@@ -1046,19 +1091,110 @@ def data_impl(c):
     return {'shipped': shipped, 'task': out_task, 'acts': [[a.out, a.err] for a in main_acts], 'base_fail': base_fail}
 
 
+JOB_KEYS = FIXED + ['file_dep', 'targets', 'dep_changed', 'verbosity', 'doc', 'calc_dep', 'pos_arg_val', 'setup_tasks']
+
+
+def job_case(rng):
+    """main process -> worker process (JobTaskPickle): the worker's Task is its fork-time copy (ids 51..99), the main
+    side has meanwhile changed any of its attributes (ids 1..50: file_dep / task_dep / calc_dep extended by calc_dep
+    results, options and dep_changed set by select_task, values ...)"""
+    main = {k: rng.randint(1, 50) for k in JOB_KEYS}
+    work = {k: rng.randint(51, 99) for k in JOB_KEYS}
+    for k in JOB_KEYS:
+        if rng.random() < 0.3:
+            work[k] = main[k]          # attribute not changed since the fork
+    work['name'] = main['name']
+    return {'job': True, 'main': {'task': main}, 'worker': {'task': work}}
+
+
+def _mk_task(rec, tag):
+    from doit.task import Task
+    t = Task('t%d' % rec['name'], None)
+    for k, v in rec.items():
+        if k in ('name', '_action_instances'):
+            continue
+        t.__dict__[k] = [(tag, k, v)] if k == 'value_savers' else (tag, k, v)
+    t.__dict__['_action_instances'] = [('acts', rec['_action_instances'])]
+    return t
+
+
+def _ids_of(t, rec):
+    out = {}
+    for k in rec:
+        v = t.__dict__.get(k)
+        if k == 'name':
+            out[k] = rec['name'] if t.name == 't%d' % rec['name'] else -1
+        elif k == '_action_instances':
+            out[k] = v[0][1] if isinstance(v, list) and v and isinstance(v[0], tuple) else -1
+        elif k == 'value_savers':
+            out[k] = v[0][2] if isinstance(v, list) and v and isinstance(v[0], tuple) else -1
+        else:
+            out[k] = v[2] if isinstance(v, tuple) and len(v) == 3 else -1
+    return out
+
+
+def job_impl(c):
+    """the real JobTaskPickle + what execute_task_subprocess does with it in a worker process"""
+    common.use_repo()
+    from doit.runner import JobTaskPickle
+    main_t = _mk_task(c['main']['task'], 'v')
+    work_t = _mk_task(c['worker']['task'], 'v')
+    job = JobTaskPickle(main_t)
+    shipped = sorted(k for k in job.task_dict if k in c['main']['task'])
+    assert job.name == main_t.name
+    work_t.update_from_pickle(job.task_dict)           # `if self.Child == Process:` branch of execute_task_subprocess
+    return {'shipped': shipped, 'task': _ids_of(work_t, c['main']['task'])}
+
+
+def _job_intact_py(c, got):
+    """statement of C08_job_pickle_intact on the implementation: every attribute pickle_safe_dict ships has the main
+    side's value in the worker, the seven unshipped ones are the worker's own"""
+    if 'exc' in got:
+        return False
+    unshipped = ('_actions', '_action_instances', 'clean_actions', 'teardown', 'custom_title', 'value_savers', 'uptodate')
+    for k, v in c['main']['task'].items():
+        want = c['worker']['task'][k] if k in unshipped else v
+        if got['task'].get(k) != want:
+            return False
+    return True
+
+
 def eval_data_batch(batch):
     st = common.WorkerStats()
     common.use_repo()
     cases = []
     for seed in batch['seeds']:
         cases.append(data_case(random.Random(seed)))
+        cases.append(job_case(random.Random(seed ^ 0x5a5a)))
     cases = batch.get('cases', []) + cases
-    reqs = [dict(c, model='c08', op='data') for c in cases]
+    reqs = [dict(c, model='c08', op='job' if c.get('job') else 'data') for c in cases]
     try:
         answers = common.drv_batch(reqs)
     except Exception as ex:  # noqa
         answers = [{'error': str(ex)[:100]}] * len(reqs)
     for c, a in zip(cases, answers):
+        if c.get('job'):
+            st.case({'job': c}, nontrivial=True)
+            st.count('K3:job_cases')
+            st.count('K3:job:attrs_changed_since_fork:%d' % min(9, sum(1 for k in c['main']['task']
+                                                                     if c['main']['task'][k] != c['worker']['task'][k]) // 3 * 3))
+            if 'error' in a:
+                st.count('driver_unavailable')
+                continue
+            try:
+                got = job_impl(c)
+            except Exception as ex:  # noqa
+                got = {'exc': type(ex).__name__, 'msg': str(ex)[:200]}
+            want = {'shipped': sorted(a['shipped']), 'task': a['task']}
+            if got != want:
+                w = {'data_case': c, 'impl': got, 'model': want}
+                if not _job_intact_py(c, got):
+                    st.violation(w, 'monitor', 'C08 job_pickle_intact: an attribute of the main-side task did not reach the '
+                                 'worker process (API level: JobTaskPickle / pickle_safe_dict / update_from_pickle): %s' % sorted(
+                                     k for k in c['main']['task'] if (got.get('task') or {}).get(k) != a['task'].get(k))[:6])
+                else:
+                    st.divergence(w, 'K3: JobTaskPickle differs from workerReceivesPickle')
+            continue
         st.case({'data': c}, nontrivial=bool(c['worker']['acts']))
         st.count('K3:main_acts:%d' % len(c['main']['acts']))
         st.count('K3:len_%s' % ('equal' if len(c['main']['acts']) == len(c['worker']['acts']) else 'differ'))
@@ -1318,6 +1454,20 @@ def replay(ctx, data):
     common.use_repo()
     if 'data_case' in w:
         c = w['data_case']
+        if c.get('job'):
+            print('API-level job case (main -> worker process, JobTaskPickle):', json.dumps(c))
+            a = common.drv_batch([dict(c, model='c08', op='job')])[0]
+            try:
+                got = job_impl(c)
+            except Exception as ex:  # noqa
+                got = {'exc': type(ex).__name__, 'msg': str(ex)[:200]}
+            print('model (workerReceivesPickle):', json.dumps(a, sort_keys=True))
+            print('implementation              :', json.dumps(got, sort_keys=True))
+            bad = sorted(k for k in c['main']['task'] if (got.get('task') or {}).get(k) != a['task'].get(k))
+            print('attributes that differ:', bad)
+            ok = _job_intact_py(c, got)
+            print('job_pickle_intact on the implementation:', ok)
+            return ok and (not bad or data.get('failed') != 'correspondence')
         print('API-level data case:', json.dumps(c))
         a = common.drv_batch([dict(c, model='c08', op='data')])[0]
         try:
